@@ -217,9 +217,14 @@ def info_one(ctx, sf, case, reqs, pend):
         ok_cond = all(px.well_conditioned(t, env_f, env_m, cplx=cplx) for t in trees)
         if ok_cond:
             ref = ref[0] if "one" in case["p"] else np.array(ref)
+            if "arr2" in case["p"]:
+                ref = ref.reshape(len(case["p"]["arr2"]), -1)
             if real[0] != "ok":
                 ctx.fail("evaluate-raises-though-bound", f"all atoms have values but par_evaluate gives {real}", rp)
-            elif not px.close(ref, np.asarray(real[1]).reshape(np.shape(ref)), 2e-4 if f32 else 1e-9):
+            elif np.shape(ref) != np.shape(real[1]):
+                ctx.fail("evaluate-wrong-shape", f"par_evaluate returns shape {np.shape(real[1])} for a parameter of "
+                         f"shape {np.shape(ref)}", rp)
+            elif not px.close(ref, np.asarray(real[1]), 2e-4 if f32 else 1e-9):
                 ctx.fail("evaluate-wrong-value", f"par_evaluate={real[1]} independent evaluation={ref}", rp)
         ctx.tally("info_bound")
     except px.Unbound as ub:
@@ -265,7 +270,7 @@ def info_compare(ctx, case, got, model):
             return
         mv = px.pval_fold(model["eval"]["ok"])
         rv = np.asarray(real[1])
-        if not px.close(mv, rv.reshape(np.shape(mv)), 2e-4 if case.get("dtype") else 1e-9):
+        if np.shape(rv) != np.shape(mv) or not px.close(mv, rv, 2e-4 if case.get("dtype") else 1e-9):
             ctx.disagree("par_evaluate", case, np.asarray(mv).tolist(), rv.tolist())
 
 
@@ -867,6 +872,17 @@ def gen_session(rng):
                 c["target"] = 0
     h["segs"] = [sg for sg in h["segs"] if sg] or [[dict(k="prepare", mode=0, how="Vacuum")]]
     h.update(opt=False, shots=1, rerun=None, premature=False, suffix=False)
+    if len(h["segs"]) >= 2 and rng.random() < 0.5:
+        # a segment that measures and THEN fails, followed by a segment that reads the mode measured there
+        i = rng.randrange(len(h["segs"]) - 1)
+        m = rng.randrange(h["n"])
+        never = [k for k in range(h["n"]) if k != m and not any(k in c.get("modes", []) for sg in h["segs"] for c in sg)]
+        if never:
+            if rng.random() < 0.6:
+                h["segs"][max(i - 1, 0)].insert(0, dict(k="measure", modes=[m], vals=[dy(rng)], how="homodyne"))
+            h["segs"][i].insert(0, dict(k="measure", modes=[m], vals=[dy(rng)], how="homodyne"))
+            h["segs"][i].append(dict(k="use", e={"m": never[0]}, op="Rgate", dagger=False, target=0))
+            h["segs"][i + 1].insert(0, dict(k="use", e={"mul": [px.num(2), {"m": m}]}, op="Dgate", dagger=False, target=0))
     # how the segments are grouped into eng.run calls, and where eng.reset() is called
     calls, k = [], 0
     while k < len(h["segs"]):
